@@ -204,7 +204,7 @@ def seqStep (S : Sys) (acc : Option S.St × List S.Obs) (o : S.Call) : Option S.
 def seqRun (S : Sys) (ops : List S.Call) : Option S.St × List S.Obs :=
   ops.foldl (seqStep S) (none, [])
 
-/-- Schedules the Rust type system admits (`HtmlRewriter: !Sync`; the `send` flavour is `Send`): every call on
+/-- Schedules the Rust type system allows (`HtmlRewriter: !Sync`; the `send` flavour is `Send`): every call on
     an instance other than its creation, and every migration, is made by the current owner. The theorems do not
     need this (the C API has no such check); it delimits where call-granularity interleaving is the right
     abstraction of real executions. -/
